@@ -267,6 +267,19 @@ def _obs():
                       'object column of <=%d rows of symbolic strings len<=%d or null; MAX_CATEGORIES patched to %d'
                       % (rows, nc, MAXCAT), param={'rows': rows, 'nc': nc, 'kind': 'string'}, timeout=to, tier=tier,
                       stubs=['symdf', 'baseconstraints.MAX_CATEGORIES = %d' % MAXCAT]))
+    for rows, tier, to in ((3, Q, 400), (4, T, 2400)):
+        obs.append(Ob('K2', 'k2_sql_int', 'SQLite side: ' + what, 'INTEGER column of <=%d rows, ANY ints/NULLs, through '
+                      'the real SQL text generation' % rows, param={'rows': rows, 'kind': 'int'}, timeout=to, tier=tier,
+                      stubs=['sqldouble']))
+        obs.append(Ob('K2', 'k2_sql_bool', 'SQLite side: ' + what, 'BOOLEAN column of <=%d rows of 0/1/NULL' % rows,
+                      param={'rows': rows, 'kind': 'bool'}, timeout=to, tier=tier, stubs=['sqldouble'],
+                      known=['C07.no-duplicates-bool-date']))
+    for rows, nc, tier, to in ((2, 2, Q, 400), (3, 2, T, 2400)):
+        obs.append(Ob('K2', 'k2_sql_text', 'SQLite side, string field: lengths in characters, allowed_values iff at '
+                      'most MAX_CATEGORIES, no_duplicates, max_nulls; nothing but the type for an empty table',
+                      'TEXT column of <=%d rows of symbolic strings len<=%d or NULL; MAX_CATEGORIES patched to %d'
+                      % (rows, nc, MAXCAT), param={'rows': rows, 'nc': nc, 'kind': 'string'}, timeout=to, tier=tier,
+                      stubs=['sqldouble', 'baseconstraints.MAX_CATEGORIES = %d' % MAXCAT]))
     return obs
 
 
